@@ -9,8 +9,8 @@
 (*    MonEffect(m, ev)     next monitor state                               *)
 (*    MonFinal(m)          clauses required when the trace ends             *)
 (* Every trace is one linear chain of states; verdicts are total and name   *)
-(* the failing clauses: <<"REJ", tid, l, clauses>> or <<"ACC", tid>> is      *)
-(* printed for every trace (run with -workers 1).                           *)
+(* the failing clauses: <<"REJ", tid, l, clauses>> for every rejected event  *)
+(* and <<"ACC", tid>> for every trace without one (run with -workers 1).     *)
 (***************************************************************************)
 EXTENDS Naturals, Sequences, FiniteSets, TLC, Json, IOUtils
 
@@ -18,36 +18,36 @@ CONSTANTS MonInit(_), MonClauses(_, _), MonEffect(_, _), MonFinal(_)
 
 Traces == ndJsonDeserialize(IOEnv.TRACE_FILE)
 
-VARIABLES tid, l, mon, verdict
-trvars == <<tid, l, mon, verdict>>
+VARIABLES tid, l, mon, nrej
+trvars == <<tid, l, mon, nrej>>
 
 FailedOf(cl) == { cl[i][1] : i \in { j \in DOMAIN cl : ~cl[j][2] } }
 
 TraceInit == /\ tid \in 1..Len(Traces)
              /\ l = 1
              /\ mon = MonInit(Traces[tid].h)
-             /\ verdict = "running"
+             /\ nrej = 0
 
-TraceStep == /\ verdict = "running"
-             /\ l <= Len(Traces[tid].ev)
+(* A rejected event is reported and the monitor moves on (MonEffect is total), so *)
+(* the rest of the execution is still checked; at most MaxRej reports per trace.  *)
+MaxRej == 3
+TraceStep == /\ l <= Len(Traces[tid].ev)
+             /\ nrej < MaxRej
              /\ LET ev == Traces[tid].ev[l]
                     f  == FailedOf(MonClauses(mon, ev))
-                IN IF f = {}
-                     THEN /\ mon' = MonEffect(mon, ev)
-                          /\ l' = l + 1
-                          /\ verdict' = verdict
-                     ELSE /\ PrintT(<<"REJ", tid, l, f>>)
-                          /\ verdict' = "rejected"
-                          /\ UNCHANGED <<mon, l>>
+                IN /\ IF f = {} THEN nrej' = nrej
+                               ELSE PrintT(<<"REJ", tid, l, f>>) /\ nrej' = nrej + 1
+                   /\ mon' = MonEffect(mon, ev)
+                   /\ l' = l + 1
              /\ tid' = tid
 
-TraceEnd == /\ verdict = "running"
-            /\ l = Len(Traces[tid].ev) + 1
-            /\ LET f == FailedOf(MonFinal(mon))
-               IN IF f = {}
-                    THEN PrintT(<<"ACC", tid>>) /\ verdict' = "accepted"
-                    ELSE PrintT(<<"REJ", tid, l, f>>) /\ verdict' = "rejected"
-            /\ UNCHANGED <<tid, l, mon>>
+TraceEnd == /\ l = Len(Traces[tid].ev) + 1 \/ (nrej = MaxRej /\ l <= Len(Traces[tid].ev))
+            /\ LET f == IF nrej = MaxRej THEN {} ELSE FailedOf(MonFinal(mon))
+               IN IF f = {} /\ nrej = 0
+                    THEN PrintT(<<"ACC", tid>>)
+                    ELSE IF f # {} THEN PrintT(<<"REJ", tid, l, f>>) ELSE TRUE
+            /\ l' = Len(Traces[tid].ev) + 2
+            /\ UNCHANGED <<tid, mon, nrej>>
 
 TraceNext == TraceStep \/ TraceEnd
 TraceSpec == TraceInit /\ [][TraceNext]_trvars
